@@ -17,6 +17,7 @@
   returns the error or the ring sum of the secrets — never a wrong key.
 -/
 import Lattigo.Proofs.ShamirOrder
+import Lattigo.Props.C15Gen
 import Mathlib.Tactic.NormNum.Prime
 
 namespace Lattigo.Props.C15
